@@ -47,8 +47,8 @@ def generate(engine: Engine, target) -> FnReport:
     return rep
 
 
-def vc_text(engine, ob, defs=None, fuel=None, get_values=()):
-    return engine.ctx.vc_text(ob.hyps, ob.goal, defs=defs or ob.defs, fuel=fuel or ob.fuel, get_values=get_values)
+def vc_text(engine, ob, defs=None, fuel=None, get_values=(), nl="exact"):
+    return engine.ctx.vc_text(ob.hyps, ob.goal, defs=defs or ob.defs, fuel=fuel or ob.fuel, get_values=get_values, nl=nl)
 
 
 def discharge(engine: Engine, reports, schedule=None, both=False, workers=16):
@@ -76,9 +76,17 @@ def discharge(engine: Engine, reports, schedule=None, both=False, workers=16):
         gtxt = vc_text(engine, o, defs="ground", fuel=max(2, o.fuel))
         ref = solver.solve_text(gtxt, schedule=(("z3", 5),))
         o.refute = ref
+        ab = None
+        if ref.status != "unsat" and "nlmul" in gtxt.split("(check-sat)")[0].split("\n", 3)[-1]:
+            # same VC with products of two non-constants left uninterpreted (sound for unsat)
+            ab = solver.solve_text(vc_text(engine, o, defs="ground", fuel=max(2, o.fuel), nl="abstract"), schedule=(("z3", 8), ("cvc5", 8)))
         if ref.status == "unsat":
             ref.solver = "z3(ground-defs)"
             res = ref
+        elif ab is not None and ab.status == "unsat":
+            ab.solver = ab.solver + "(ground-defs, products abstracted)"
+            ab.attempts = [("z3-ground", ref.status, round(ref.time_s, 3))] + ab.attempts
+            res = ab
         else:
             rest = schedule[:2] if ref.status == "sat" else schedule
             res = solver.solve_text(txt, schedule=rest)
